@@ -136,6 +136,8 @@ class GreedyStandaloneContainment(Case):
 
 
 EDGE_BLOCKS = [
+    # more live stack elements than SWAP16 reaches (seed C10-6)
+    "SWAP16 MSTORE OR SWAP14 DUP8 PUSH 5d DUP15 DIV DUP11 SSTORE GT POP MSTORE MSTORE ADD SSTORE LT AND ADD SSTORE SWAP2",
     "PUSH 0 PUSH 5 DIV", "PUSH 0 PUSH 5 MOD", "PUSH 0 PUSH 5 SDIV", "PUSH 0 PUSH 5 SMOD", "PUSH 0 PUSH 5 PUSH 7 ADDMOD", "PUSH 0 PUSH 5 PUSH 7 MULMOD",
     "PUSH ffffffffffffffffffffffffffffffffffffffffffffffffffffffffffffffff PUSH 1 ADD",
     "PUSH ffffffffffffffffffffffffffffffffffffffffffffffffffffffffffffffff PUSH 2 EXP",
@@ -180,8 +182,78 @@ class PipelineTotality(NativeCase):
         self.assumptions = ("bounded: %d blocks x %d option sets, %d s budget per run" % (len(blocks), len(optsets), self.BUDGET_S),)
 
 
+class CleanStackTerminates(NativeCase):
+    """bounded, function level: SMSgreedy.clean_stack on stacks of 10..20 elements, for every position (and pair of positions) of
+    the elements that are no longer needed and several sets of solved positions: it returns within the budget, emits only POP and
+    SWAP1..SWAP16, and the stack it returns is the one these instructions produce.  (Loop variant the code relies on: an iteration of
+    the outer loop that does not leave it pops one element - seed C10-6 keeps looping when the element is deeper than SWAP16 reaches.)"""
+    prop = 'C10'
+    name = "SMSgreedy.clean_stack(terminates, bounded)"
+    functions = (bg.SMSgreedy.clean_stack,)
+    BUDGET_S = 2
+
+    def run_native(self, tier):
+        import itertools
+        import signal
+
+        class _TO(Exception):
+            pass
+
+        def _alarm(sig, frm):
+            raise _TO()
+        old = signal.signal(signal.SIGALRM, _alarm)
+        n_runs = hangs = 0
+        if not hasattr(bg, 'verbose'):
+            bg.verbose = False            # module global the entry points set before any search
+        try:
+            sizes = (10, 12, 16, 17, 18, 19, 20) if tier == 'quick' else tuple(range(9, 23))
+            for n in sizes:
+                dead_sets = [()] + [(p,) for p in range(n)] + [(p, q) for p in range(n) for q in range(p + 1, n) if (q - p) in (1, 2, 5) or q >= 16]
+                for dead in dead_sets:
+                    for final_len, solved in ((n, ()), (n, (n - 1,)), (n - 2, (0, 1)), (n, tuple(range(n - 3, n)))):
+                        g = bg.SMSgreedy.__new__(bg.SMSgreedy)
+                        g._final_stack = ["f%d" % k for k in range(final_len)]
+                        g.needs_in_stack_too_far = lambda o, st, ns: 15          # the function is only entered for a far operand
+                        stack = ["v%d" % k for k in range(n)]
+                        needed = dict((v, 0 if k in dead else 1) for k, v in enumerate(stack))
+                        inp = dict(stack_size=n, no_longer_needed_positions=list(dead), final_stack_size=final_len, solved=list(solved))
+                        n_runs += 1
+                        signal.setitimer(signal.ITIMER_REAL, self.BUDGET_S)
+                        try:
+                            ops, out_stack, _ = g.clean_stack("op", list(stack), dict(needed), list(solved))
+                        except _TO:
+                            self.ob('returns-within-%ds' % self.BUDGET_S, False, inputs=inp, info="no result")
+                            hangs += 1
+                            if hangs >= 3:
+                                self.assumptions = ("stopped after 3 calls that did not return",)
+                                return
+                            continue
+                        except BaseException as e:
+                            self.ob('raises-nothing', False, inputs=inp, info=repr(e))
+                            continue
+                        finally:
+                            signal.setitimer(signal.ITIMER_REAL, 0)
+                        self.ob('returns-within-%ds' % self.BUDGET_S, True, inputs=inp)
+                        ref = list(stack)
+                        okops = True
+                        for o in ops:
+                            if o == 'POP' and ref:
+                                ref.pop(0)
+                            elif o.startswith('SWAP') and o[4:].isdigit() and 1 <= int(o[4:]) <= 16 and int(o[4:]) < len(ref):
+                                k = int(o[4:])
+                                ref[0], ref[k] = ref[k], ref[0]
+                            else:
+                                okops = False
+                                break
+                        self.ob('only-executable-POP/SWAP1..16-and-the-returned-stack-is-their-result', okops and ref == list(out_stack), inputs=inp,
+                                info=dict(ops=ops, returned=list(out_stack)))
+        finally:
+            signal.signal(signal.SIGALRM, old)
+        self.assumptions = ("bounded: %d calls (stack sizes %s), %d s budget per call" % (n_runs, list(sizes), self.BUDGET_S),)
+
+
 def cases(tier='quick'):
     cs3, _ = c03.cases(tier)
     cs = [c for c in cs3 if c.name.startswith(('evaluate_expression', 'apply_transform', 'check_size'))]
-    cs += [GreedyContainment(), GreedyStandaloneContainment(), PipelineTotality()]
+    cs += [GreedyContainment(), GreedyStandaloneContainment(), CleanStackTerminates(), PipelineTotality()]
     return cs, dict(edge_blocks=len(EDGE_BLOCKS))
